@@ -1504,6 +1504,8 @@ func (k *c05) fieldSortedAfter(pk *packages.Package, fd *ast.FuncDecl, fe *ast.S
 var c05Exceptions = map[string]string{
 	"compiler.definitionFromSymbolTable|range:table.symbolsByName": "the map is keyed by each symbol's own name (symbolsByName[s.name] == s), so re-keying by symbol.name cannot collide",
 	"os.VirtualOS.findMount|range:osObj.mounts":                   "strict arg-max over key length among keys that are prefixes of one path: two distinct keys of equal length cannot both be prefixes, so there are no ties",
+	"object.Map.equalsVisit|range:m.items":                        "a conjunction over all entries (false as soon as one differs); the only state the callee touches is the visited set, which is scoped to the path from the root (enter / leave around the descent), so what is decided for an entry does not depend on the entries visited before it",
+	"object.Map.interfaceVisit|range:m.items":                     "each entry is converted into its own key of the result map; the visited set the callee touches is scoped to the path from the root (enter / leave), so the result does not depend on the order of the entries",
 }
 
 // sliceIsLocal: the slice (possibly boxed into an interface for sort.Slice) was allocated by this function.
